@@ -148,14 +148,14 @@ func init() {
 			&gen.ExprStmt{X: &gen.Call{Fn: "f0", Spread: true, Args: []gen.Expr{gen.P(1), &gen.ListLit{Elems: []gen.Expr{gen.P(2)}}}}},
 			&gen.ExprStmt{X: gen.P(3)},
 		}},
-		genf: func(g *gen.G, c *wk.Case) []gen.Stmt { return g.OrderProgram() },
-		rule: "PRNG-generated programs whose statements are expression forms with side-effecting probe leaves p(k)/pv(k,v)/pe(k): every call path (script functions of 0-7 parameters i.e. direct and reflect paths, variadic script functions, Go functions fixed/variadic with interface and typed parameters) x {plain, spread literal, spread variable} x {direct, go, defer, anonymous callee, member callee} x {right count, one too few, one too many} x {operands succeed, one fails, one has an unconvertible type}; list/map literals, all binary operators, index, 2- and 3-index slices, return lists, multi-var/assign, in, switch subject, len, op-assign on an indexed target; && || ?: ?? with every truthiness/nil/failing deciding operand. The recorded probe trace must equal the model's unique left-to-right exactly-once short-circuit trace (a call refused for its argument count may have evaluated any prefix of its operands, each at most once). Non-trivial = at least 3 probe events observed; distinct = distinct source text.",
+		genf:    func(g *gen.G, c *wk.Case) []gen.Stmt { return g.OrderProgram() },
+		rule:    "PRNG-generated programs whose statements are expression forms with side-effecting probe leaves p(k)/pv(k,v)/pe(k): every call path (script functions of 0-7 parameters i.e. direct and reflect paths, variadic script functions, Go functions fixed/variadic with interface and typed parameters) x {plain, spread literal, spread variable} x {direct, go, defer, anonymous callee, member callee} x {right count, one too few, one too many} x {operands succeed, one fails, one has an unconvertible type}; list/map literals, all binary operators, index, 2- and 3-index slices, return lists, multi-var/assign, in, switch subject, len, op-assign on an indexed target; && || ?: ?? with every truthiness/nil/failing deciding operand. The recorded probe trace must equal the model's unique left-to-right exactly-once short-circuit trace (a call refused for its argument count may have evaluated any prefix of its operands, each at most once). Non-trivial = at least 3 probe events observed; distinct = distinct source text.",
 		nontriv: func(f map[string]int) bool { return true },
 	})
 	exits := []string{"break", "continue", "return", "throw", "runtime-error"}
 	registerModelProp(&modelProp{
 		id: "C04", prof: gen.ProfScope, fixed: tryControlFixed(),
-		rule: "PRNG-generated terminating programs (scope profile: a 4-name pool assigned, var-declared and read back at every nesting level of if/else-if/else, the loop forms, for-in, switch, try/catch/finally, module, function literals, closures, recursion; every block left by every exit path) run on the real interpreter; the recorded read-back trace, result and error status must be admitted by a variant of the reference model. Non-trivial = the program contains at least one shadowing declaration and at least one non-normal exit (break/continue/return/throw/runtime error); distinct = distinct source text.",
+		rule:    "PRNG-generated terminating programs (scope profile: a 4-name pool assigned, var-declared and read back at every nesting level of if/else-if/else, the loop forms, for-in, switch, try/catch/finally, module, function literals, closures, recursion; every block left by every exit path) run on the real interpreter; the recorded read-back trace, result and error status must be admitted by a variant of the reference model. Non-trivial = the program contains at least one shadowing declaration and at least one non-normal exit (break/continue/return/throw/runtime error); distinct = distinct source text.",
 		nontriv: func(f map[string]int) bool { return hasAny(f, "shadow") && hasAny(f, exits...) },
 	})
 	registerModelProp(&modelProp{
